@@ -148,6 +148,12 @@ Proof.
     all: match type of H with (if ?c then _ else _) = _ => destruct c eqn:E; inversion H; subst end; b2p; fin.
     all: change (2 ^ 4) with 16; change (2 ^ 3) with 8.
     all: destruct Hs as [Hs|[Hs|[Hs|Hs]]]; subst esize; Z.div_mod_to_equations; lia.
+  - (* SSysOp *) destruct ops as [|[] r]; try discriminate.
+    match type of H with (if ?c then _ else _) = _ => destruct c eqn:E; inversion H; subst end. b2p.
+    fin; [change (2 ^ 3) with 8 | change (2 ^ 4) with 16 | change (2 ^ 3) with 8]; Z.div_mod_to_equations; lia.
+  - (* SGpPair *) destruct ops as [|[] [|[] r]]; try discriminate.
+    match type of H with (if ?c then _ else _) = _ => destruct c eqn:E; inversion H; subst end.
+    repeat (apply andb_prop in E; destruct E as [E ?]). b2p. fin. change (2 ^ 5) with 32. lia.
 Qed.
 
 Lemma bind_range : forall ss ops e, forallb syn_wf ss = true -> bind ss ops = Some e -> env_ok e (flat_map syn_fields ss).
